@@ -314,6 +314,10 @@ func runC14(r *Run) {
 				}
 				time.Sleep(100 * time.Millisecond)
 				r.afterCloseQuiet(f, trans+" two closers", 200*time.Millisecond)
+				// the schedule forced here, as a run of Model/CloseLock.v: the reader enters the once (R), the user closes
+				// until it waits for the once (U x5), the reader finishes (R x3), the user finishes (U x3)
+				left := settle() - f.base
+				r.emit("cl.run 0 R U U U U U R R R U U U", fmt.Sprintf("final=%s blockedU=0 blockedR=%s", b01(left == 0), b01(left != 0)), true)
 			} else {
 				f.tc.log.clearHold("close conn, err")
 				close(held)
